@@ -10,7 +10,7 @@ from vf.xmodel import Schema, Rop, build_api, build_loader
 
 SHARDS = {'quick': 16, 'thorough': 32}
 TIMEOUT = {'quick': 900, 'thorough': 5400}
-MUST_HIT = ['Generator.swapped', 'ArgModel.creation', 'IdFresh.defaulted-id', 'IdFresh.generator-next', 'Generator.peek',
+MUST_HIT = ['Generator.user-source-sequence', 'Generator.swapped', 'ArgModel.creation', 'IdFresh.defaulted-id', 'IdFresh.generator-next', 'Generator.peek',
             'Generator.integer-sequence', 'UnknownType.rejected', 'Referential.argument']
 MUST_REACH = ['xtuml/meta.py:MetaClass.default_value', 'xtuml/meta.py:MetaClass.new',
               'xtuml/tools.py:IdGenerator.peek', 'xtuml/tools.py:IdGenerator.next',
@@ -72,6 +72,7 @@ def make_generator(rng, kind, log):
                 state[0] += 1
                 return v
         g = UserGenerator()
+        g.source, g.drawn = seq, state
     orig_next = g.next
 
     def logged_next():
@@ -155,6 +156,14 @@ def run_case(ctx, rng, n_case):
             n = next(gen) if rng.random() < 0.5 else gen.next()
             if not (p1 == p2 == n) or len(log) != before + 1:
                 raise Mismatch('generator/peek-advances', 'peek, peek, next gave %r %r %r' % (p1, p2, n))
+            if gkind == 'user':
+                # a generator drawing from its own source: the values handed out are the source values in
+                # order, none skipped (at most one value read ahead) - whatever was peeked in between
+                ctx.hit('Generator.user-source-sequence')
+                if log != gen.source[:len(log)] or gen.drawn[0] not in (len(log), len(log) + 1):
+                    raise Mismatch('generator/peek-advances', 'after %d next() calls (and peeks in between) the '
+                                   'user generator has drawn %d source values and handed out %r, the source '
+                                   'starts %r' % (len(log), gen.drawn[0], log[-4:], gen.source[max(0, len(log) - 4):len(log)]))
             if gkind == 'integer':
                 ctx.hit('Generator.integer-sequence')
                 if n != len(log):
